@@ -6,7 +6,7 @@ FUNCS = ['RangeProof::verify_batch', 'RangeProof::verify', 'RangeProof::verify_s
 
 def cases(tier):
     out = []
-    cfgs = [(8, 1, 1, 1), (8, 4, 4, 1), (4, 2, 4, 2), (64, 1, 1, 1)] if tier == 'quick' else [(8, 1, 1, 1), (8, 4, 4, 1), (4, 2, 4, 2), (64, 1, 1, 1), (16, 8, 8, 1), (2, 2, 2, 6), (32, 2, 2, 3), (64, 4, 4, 1)]
+    cfgs = [(8, 1, 1, 1), (8, 4, 4, 1), (4, 2, 4, 2), (64, 1, 1, 1), (2, 8, 8, 1), (4, 2, 2, 6)] if tier == 'quick' else [(8, 1, 1, 1), (8, 4, 4, 1), (4, 2, 4, 2), (64, 1, 1, 1), (16, 8, 8, 1), (2, 2, 2, 6), (32, 2, 2, 3), (64, 4, 4, 1)]
     for (n, m, cap, x) in cfgs:
         maxv = (1 << n) - 1
         # more than 128 symbolic witness bits make the h-coefficient query (the only one that needs b*b = b) too slow here: larger
